@@ -7,8 +7,11 @@
 (*                   invert KeyOf                                          *)
 (*   ReadDirRefines  the prefix scan returns exactly the names of          *)
 (*                   Children(t, p), with Level A's outcome class          *)
-(*   RemoveDirRefines / CreateDirRefines  outcome class allowed by Level A *)
-(*                   and resulting key set = keys of Level A's tree        *)
+(*   RemoveDirRefines / CreateDirRefines / RemoveFileRefines /             *)
+(*   CreateFileRefines  outcome class allowed by Level A and resulting     *)
+(*                   flat map = flat map of Level A's result tree          *)
+(*   LookupRefines   exists / metadata answer from the map = Level A kind  *)
+(*   FlatWellFormed  C03 on the representation (parent key is a dir)       *)
 (***************************************************************************)
 EXTENDS MemFS
 CONSTANT Depth
@@ -44,12 +47,32 @@ RemoveDirRefines ==
     LET r == RemoveDir(Flat(t), KeyOf(p))
         a == T!RemoveDir(t, p) IN
     /\ r.cls \in a.allowed
-    /\ r.keys = KeysOf(a.t)
+    /\ r.keys = KeysOf(a.t) /\ r.files = Flat(a.t)
 
 CreateDirRefines ==
   \A p \in U :
     LET r == CreateDir(Flat(t), KeyOf(p))
         a == T!CreateDir(t, p) IN
     /\ r.cls \in a.allowed
-    /\ r.keys = KeysOf(a.t)
+    /\ r.keys = KeysOf(a.t) /\ r.files = Flat(a.t)
+
+RemoveFileRefines ==
+  \A p \in U :
+    LET r == RemoveFile(Flat(t), KeyOf(p))
+        a == T!RemoveFile(t, p) IN
+    r.cls \in a.allowed /\ r.files = Flat(a.t)
+
+CreateFileRefines ==
+  \A p \in U :
+    LET r == CreateFile(Flat(t), KeyOf(p))
+        a == T!CreateFile(t, p, <<>>) IN
+    r.cls \in a.allowed /\ r.files = Flat(a.t)
+
+LookupRefines ==
+  \A p \in T!AllPaths :
+    /\ Exists(Flat(t), KeyOf(p)) = (T!Kind(t, p) # "none")
+    /\ MetadataKind(Flat(t), KeyOf(p)) = (IF T!Kind(t, p) = "none" THEN "notfound" ELSE T!Kind(t, p))
+
+\* C03 at the representation level: every key's parent key is present and a directory
+FlatWellFormed == \A k \in DOMAIN Flat(t) : k # <<>> => ParentKey(k) \in DOMAIN Flat(t) /\ Flat(t)[ParentKey(k)] = "dir"
 =============================================================================
